@@ -32,6 +32,16 @@ CLOCKVAR = ("clock var", "TIME*2 + 1", lambda t: t * 2 + 1)     # a variable tha
 CONSTS = [("alpha", 7.0), ("beta_gamma", 3.0), ("Delta Eps", 2.0), ("ZETA", 1.5), ("eta1", 0.5), ("Theta_X y", 4.0), ("nu", -2.5), ("rate+x#1", 2.5), ("alpha_twin", 7.0)]
 BIN = ["+", "-", "*", "/", "**", "%"]
 CMP = ["<", ">", "<=", ">=", "==", "!="]
+# graphical functions every document carries; LOOKUP(gf, x) is the function at x whatever the function's own equation is
+GFS = {"curve_t": ("TIME", [(0.0, 1.0), (2.0, 3.0), (5.0, 0.5), (10.0, 4.0)]), "curve_c": ("alpha", [(-5.0, 2.0), (0.0, 0.0), (4.0, 8.0), (9.0, 8.5)])}
+GF_ELS = [dict(kind="aux", name=n, eqn=e, gf=dict(xpts=[p[0] for p in pts], ypts=[p[1] for p in pts])) for n, (e, pts) in GFS.items()]
+_LK = [True]
+
+
+def has_lookup(a):
+    return isinstance(a, list) and ((len(a) > 1 and a[0] == "call" and a[1] == "LOOKUP") or any(has_lookup(z) for z in a))
+
+
 FN1 = ["ABS", "INT", "SQRT", "EXP", "LN", "LOG10", "SIN", "COS", "TAN", "ROUND", "PERCENT", "ARCSIN", "ARCCOS", "ARCTAN", "GAMMALN"]
 RUN = dict(start="1", stop="5", dt="0.5")
 TIMES = [1.0, 1.5, 3.0, 5.0]
@@ -179,6 +189,16 @@ def _ev(a, env):
         return _ev(a[1], env) or _ev(a[2], env)
     if a[0] == "not":
         return not _ev(a[1], env)
+    if a[0] == "call" and a[1] == "LOOKUP":
+        pts = GFS[a[2][1]][1]
+        x = _ev(a[3], env)
+        if x <= pts[0][0]:
+            return pts[0][1]
+        if x >= pts[-1][0]:
+            return pts[-1][1]
+        for (x0, y0), (x1, y1) in zip(pts, pts[1:]):
+            if x0 <= x <= x1:
+                return X._num(y0 + (y1 - y0) * (x - x0) / (x1 - x0))
     if a[0] == "call" and a[1] == "INIT":
         # the value the argument had at the start of the run
         return _ev(a[2], env.at(float(RUN["start"])))
@@ -261,7 +281,9 @@ def rand_tree(rng, depth):
         return ["if", rand_cond(rng, depth), rand_tree(rng, depth - 1), rand_tree(rng, depth - 1)]
     if r < 0.9:
         return ["call", rng.choice(FN1), rand_tree(rng, depth - 1)]
-    k = rng.choice(["MIN", "MAX", "SAFEDIV", "SAFEDIV3", "STEP", "RAMP", "INIT", "DELAY", "DELAY3", "ROOTN", "SMOOTH"])
+    k = rng.choice(["MIN", "MAX", "SAFEDIV", "SAFEDIV3", "STEP", "RAMP", "INIT", "DELAY", "DELAY3", "ROOTN", "SMOOTH"] + ["LOOKUP"] * _LK[0])
+    if k == "LOOKUP":
+        return ["call", "LOOKUP", ["ref", rng.choice(sorted(GFS))], rand_tree(rng, depth - 1)]
     if k == "SMOOTH":
         f = rng.choice(["DELAY1", "SMTH3", "DELAY3", "SMTHN", "DELAYN"])
         # (the smooth family takes a variable as its input stream; any other expression there is rejected loudly at evaluation time)
@@ -317,6 +339,13 @@ def table():
         out.append(("PULSE<-%s" % iname, ["call", "PULSE", inner, ["num", 1.5], ["num", 1.0]]))
         out.append(("STEP<-%s" % iname, ["call", "STEP", inner, ["num", 1.25]]))
         out.append(("RAMP<-%s" % iname, ["call", "RAMP", inner, ["num", 1.25]]))
+    # LOOKUP(gf, x): arguments on and off the time grid, outside the table's range, moving with time, as operands
+    for g in sorted(GFS):
+        G = ["ref", g]
+        for (xn, x) in (("offgrid", ["num", 3.37]), ("ongrid", ["num", 2.5]), ("below", ["neg", ["num", 7.0]]), ("above", ["num", 12.5]), ("ref", A), ("quot", ["bin", "/", A, B]),
+                        ("time", ["bin", "*", ["time"], ["num", 0.77]]), ("diff", ["bin", "-", D, ["bin", "/", E, B]])):
+            out.append(("LOOKUP-%s-%s" % (g, xn), ["call", "LOOKUP", G, x]))
+            out.append(("LOOKUP-%s-%s-operand" % (g, xn), ["bin", "-", A, ["bin", "*", ["call", "LOOKUP", G, x], B]]))
     # INIT / DELAY of arguments that move with time (TIME itself, a moving variable, compounds of them), alone and as operands
     T, CV = ["time"], ["ref", CLOCKVAR[0]]
     movers = [("time", T), ("clockvar", CV)] + [("time%s" % op, ["bin", op, T, B]) for op in BIN] + [("clockvar%s" % op, ["bin", op, B, CV]) for op in ("+", "-", "*", "/")] + \
@@ -506,17 +535,20 @@ def run_case(case):
         return dict(verdict="violated", counters=counters, mech="silent-value:" + case["name"].split("-nested")[0],
                     witness=dict(equation=case["eqn"], value=repr(v), warnings=_mon["warnings"][-2:]))
     rng = random.Random(case.get("seed", case.get("style", 0)))
+    _LK[0] = not case.get("modules")      # (graphical functions are kept out of the module documents)
     eqs = []      # (var name, key, tree, style index)
     if case["kind"] == "table":
         tab = table()[case["part"]::case["parts"]]
         for i, (key, tree) in enumerate(tab):
+            if has_lookup(tree) and case.get("modules"):
+                continue
             eqs.append(("e%d" % i, key, tree, case["style"]))
     else:
         for i in range(case["n"]):
             tree = rand_tree(rng, rng.choice([2, 3, 4, 5]))
             for sidx in rng.sample(range(4), 2):
                 eqs.append(("r%d_s%d" % (i, sidx), None, tree, sidx))
-    els = [dict(kind="aux", name=n, eqn=(repr(v) if v >= 0 else "0 - %r" % abs(v))) for n, v in CONSTS] + [dict(kind="aux", name=CLOCKVAR[0], eqn=CLOCKVAR[1])]
+    els = [dict(kind="aux", name=n, eqn=(repr(v) if v >= 0 else "0 - %r" % abs(v))) for n, v in CONSTS] + [dict(kind="aux", name=CLOCKVAR[0], eqn=CLOCKVAR[1])] + [dict(g) for g in GF_ELS]
     styles = {i: style(i, random.Random(i)) for i in range(4)}
     printed = {}
     from BPTK_Py.sdcompiler.parsers.smile.grammar import grammar, SMILEVisitor
